@@ -24,4 +24,8 @@ CHECKS["C09"] = dict(
    text="Held on the sampled state pairs/boosts/layouts: each Riemann problem against its mirror image and boosted copies (incl. boosts that put one state at rest), burn-time fields under the rigid motions that preserve each problem's symmetry. Sampling, not proof.",
    design_ref="5/C09", note=_T + "; IGEOS star pressure is only accurate to bisect's absolute xtol (propagated acoustically into the tolerance)",
    technique="metamorphic relation monitor on pairs of recorded public calls")
+CHECKS["C03"] = dict(
+   text="Held on every public call of the workload (every thermodynamic class and geometry wrapper with random admissible parameters, unequal-gamma and JWL Riemann problems in all patterns, three piston models/regions, black-box Noh with each admissible EOS, radiative-shock profiles on their nodes): the declared EOS relation evaluated by an icontract postcondition on ExactSolver.__call__. Sampling, not proof.",
+   design_ref="5/C03", note=_T + "; relation table written from the docstrings; resolution-based slack for interpolating solvers computed from the solver's own tables",
+   technique="online contract (icontract postcondition) at the public call boundary")
 NOT_YET = {}
